@@ -759,7 +759,7 @@ func (k *worker) probe(r *rig.Rig, in *input, exp *expectation, body map[string]
 
 func TestCheck(t *testing.T) {
 	c := engine.Start(t, "C15")
-	c.SetRule("E1 part exchange: full products {subject kind x declared type x requested type x router}, {actor kind x actor type x requested type x router}, {requested type x storage policy x scopes x router}, {credentials x subject kind x router}, {parameter channel x credentials x form client_id x router}, each crossed with every <=k deviations (quick 1, thorough 2) of all other dimensions, plus {requested type x router} crossed with every <=k+1 deviations of all other dimensions (subject, declared, actor, actor type, requested, scopes, policy, audience/resource, credentials, form client_id, storage capabilities, parameter channel, virtual host, router); every vector = one real token-exchange POST on a clone of the state prepared by real flows, in a synctest bubble, on a provider with a request-derived issuer (two virtual hosts); 200 answers are probed with userinfo / introspection / refresh / rp+op ID-token verification. E1 part vetoes: full product {subject (5) x requested type (4) x credentials (5) x error kind (OAuth error / plain error) x journal position (12) x router} with <=k deviations of actor, scopes, policy default type and storage capabilities: the fault-free execution's storage journal is taken and the request repeated with the storage refusing exactly the call at that position; any refused call must give an OAuth error document, never a 200. E1 part pairs: histories of two exchanges (first, second) on a FRESH provider, full products {first subject x first host x second subject x second host x router} and {first credentials x second credentials x second subject x router} with <=k-1 deviations of the rest; both answers judged by the same model, the second additionally compared with the answer the same request gets as the first of a history; distinct = (oracle rule, observed outcome class)")
+	c.SetRule("E1 part exchange: full products {subject kind x declared type x requested type x router}, {actor kind x actor type x requested type x router}, {requested type x storage policy x scopes x router}, {credentials x subject kind x router}, {parameter channel x credentials x form client_id x router}, each crossed with every <=k deviations (quick 1, thorough 2) of all other dimensions, plus {requested type x router} crossed with every <=k+1 deviations of all other dimensions (subject, declared, actor, actor type, requested, scopes, policy, audience/resource, credentials, form client_id, storage capabilities, parameter channel, virtual host, router); every vector = one real token-exchange POST on a clone of the state prepared by real flows, in a synctest bubble, on a provider with a request-derived issuer (two virtual hosts); 200 answers are probed with userinfo / introspection / refresh / rp+op ID-token verification. E1 part vetoes: full product {subject (5) x requested type (4) x credentials (5) x error kind (OAuth error / plain error) x journal position (12) x router} with <=k deviations of actor, scopes, policy default type and storage capabilities: the fault-free execution's storage journal is taken and the request repeated with the storage refusing exactly the call at that position; any refused call must give an OAuth error document, never a 200. E1 part pairs: histories of two exchanges (first, second) on a FRESH provider, full products {first subject x first host x second subject x second host x router} and {first credentials x second credentials x second subject x router} with <=k-1 deviations of the rest; both answers judged by the same model, the second additionally compared with the answer the same request gets as the first of a history. E1 part roles: the optional storage interface TokenExchangeTokensVerifierStorage with ROLE-SPECIFIC verdicts (capability value tv-role: a storage type of this package wrapping refstore): full product {subject (14: third-party strings trusted as subject only / as actor only, one per declared type, in both roles under different names, by nobody, ext, own tokens, garbage) x declared type (5) x actor (14) x actor type (5) x capability (role-specific / symmetric / absent) x router} with <=k-1 deviations of requested type, credentials, policy, scopes, host, channel; the same strings and capability are values of the subject / actor / capability dimensions of part exchange and vetoes. E1 part role-pairs: histories of two exchanges on a fresh tv-role provider, full product {first subject (6) x first actor (6) x second subject x second actor x router} with <=k-1 deviations of capability form, first router, requested types; distinct = (oracle rule, observed outcome class)")
 	c.Assume("refstore is the trusted storage (liveness of exchanged token ids in ValidateTokenExchangeRequest; ID tokens are not tracked)",
 		"authenticated client = the client a valid credential (Basic secret, POSTed secret with its client_id, private_key_jwt assertion) was presented for; a form client_id beside header/assertion credentials never changes it",
 		"a client not registered for the token-exchange grant must be refused (DESIGN 2/C15 alphabet; C05) - in every parameter channel",
@@ -770,6 +770,7 @@ func TestCheck(t *testing.T) {
 		"Either: ID token of a session ended through end_session (ID tokens are not tracked); opaque access token / refresh token handed out under the other virtual host (they name no issuer)",
 		"Either (must-serve not demanded): subject/actor token issued to another client than the requester, correct secret in the body (DESIGN 1.6), private_key_jwt assertion, client_id parameter beside header/assertion credentials or given twice, parameters in the URL query, actor_token_type without actor_token",
 		"act claim: checked when present; the stored token record must name the actor",
+		"third-party strings (not issued by the provider): acceptable in a role only if the storage's verifier for THAT role vouches for them under the declared type; the trust table of the role-specific verifier is configuration that verifier and oracle both read; for third-party access/refresh tokens the prepared state holds a live record under the id the verifier returns (refstore's liveness lookup must not decide in place of the framework)",
 		"handler panics are outcome class panic (C09): they satisfy must-refuse, not must-serve")
 	w := build(t, c)
 	if w == nil {
